@@ -400,6 +400,13 @@ def main():
         if not mine:
             raise Undecided('no obligation serves %s (obligation count is zero): %s' % (pid, '; '.join(undecided)))
         myfailed = {r: failed[r] for r in failed if r in mine}
+        # A lemma-layer row is a proof about the specification only: its text is fixed and it reads no function body, so its failure is never
+        # evidence that the code breaks the property (it means the proof needs attention: solver instability, or a changed enum declaration).
+        # It makes the check UNDECIDED; violations are reported by the rows over the code (V.*, K.*, I.*) only.
+        for r in sorted(myfailed):
+            if mine[r].get('kind') == 'verus-lemma':
+                undecided.append('lemma layer: %s did not verify (a proof over the specification, independent of the code): %s' % (r, str(myfailed[r])[:300]))
+        myfailed = {r: m for r, m in myfailed.items() if mine[r].get('kind') != 'verus-lemma'}
         known = [k for k in load_known() if k.get('property') == pid]
         violations, knownhits = [], []
         for r, msgs in sorted(myfailed.items()):
